@@ -1764,7 +1764,37 @@ def run_r4(chk, sides, infos):
                             args = [None] * len(cf.params)
                             args[ci] = a
                             emis.append((cn, cf, args, fg, ev))
-            ksum = {"classes": sorted({e[0] for e in emis}), "guard": None, "long": False}
+            # a class-encoder call handed to another method of the assembler (instead of being emitted directly): the
+            # instruction word is post-processed by that helper (e.g. the condition bit flipped on the encoded word) —
+            # outside the model "long form = class encoder re-emitted with one argument inverted"
+            via_helper = None
+            clsnames = set(side.classes())
+            for ev in kinds[kind]:
+                if ev.kind == "mcall" and ev.node[2] == ("var", "self") and ev.node[1] in meths:
+                    g = meths[ev.node[1]]
+                    for ai, a in enumerate(ev.node[3]):
+                        carries_word = any(is_e(n_) and n_[0] == "call" and any(
+                            str(n_[1]).endswith("::" + c) or str(n_[1]) == c for c in clsnames) for n_ in walk(a))
+                        if not carries_word or ai >= len(g.params):
+                            continue
+                        pname = g.params[ai][0]
+                        # a plain emitter appends the word unchanged; a helper that applies an operator to it rewrites it
+                        rewrites = any(is_e(n_) and n_[0] == "bin" and n_[1] in ("^", "|", "&", "+", "-") and
+                                       any(is_e(x) and x[0] == "var" and x[1] == pname for x in walk(n_))
+                                       for n_ in walk(g.body))
+                        if rewrites:
+                            via_helper = ev.node[1]
+            ksum = {"classes": sorted({e[0] for e in emis}), "guard": None, "long": False, "via_helper": via_helper}
+            if via_helper:
+                r.violation("ANALYSIS:%s:%s:long-form-built-by-helper:%s" % (key, kind, via_helper),
+                            "jump kind %s hands an encoded instruction word to `%s`, which may rewrite it (flip the "
+                            "condition bit, append the far branch): the rule's model of the long form — the class "
+                            "encoder re-emitted with exactly one argument inverted, followed by an unconditional "
+                            "branch — does not cover this; nothing is decided about the polarity of the long form"
+                            % (kind, via_helper), fn.where)
+                k_, m_, w_ = r.violations[-1]
+                if not k_.startswith("ANALYSIS:"):
+                    r.violations[-1] = ("ANALYSIS:" + k_.replace(":ANALYSIS:", ":", 1), m_, w_)
             for (cn, cf, args, fg, _via) in emis:
                 info = infos.get((side.lang, cn))
                 if info is None:
@@ -1839,7 +1869,7 @@ def run_r4(chk, sides, infos):
                         ikey = "%s:%s:%s:inversion" % (key, kind, cn)
                         r.instance(ikey, sample={"kind": kind, "class": cn,
                                                  "inverted_arg": [side.classes()[cn].params[i][0] for i in inv]})
-                        if len(inv) != 1:
+                        if len(inv) != 1 and not via_helper:
                             r.violation(ikey, "the long form of %s does not invert exactly one argument of %s "
                                         "(short: %s; long: %s)" % (kind, cn, ", ".join(srender(x) for x in sa),
                                                                    ", ".join(srender(x) for x in la)), fn.where)
@@ -1871,7 +1901,10 @@ def run_r4(chk, sides, infos):
     for k in sorted(rk & dk):
         a, b = summary[("rust", k)], summary[("dora", k)]
         r.instance("sibling:%s" % k, sample={"kind": k, "rust": a, "dora": b})
-        if a["classes"] != b["classes"]:
+        if a["classes"] != b["classes"] and (a.get("via_helper") or b.get("via_helper")):
+            r.observe("jump kind %s: class sets differ (%s vs %s) but one side builds its long form through a helper "
+                      "(reported as an analysis failure above)" % (k, a["classes"], b["classes"]))
+        elif a["classes"] != b["classes"]:
             if a["long"] != b["long"] and (set(a["classes"]) <= set(b["classes"]) or set(b["classes"]) <= set(a["classes"])):
                 r.observe("jump kind %s: only %s has a long form (rust classes %s, dora classes %s); the other side "
                           "refuses an out-of-range distance by the class assert"
